@@ -535,6 +535,26 @@ async fn remote<P: Protocol>(
         client_id = format!("{tenant_id}.{client_id}");
     }
 
+    // Start the link
+    let mut link = match RemoteLink::new(
+        router_tx.clone(),
+        tenant_id.clone(),
+        network,
+        connect_packet,
+        dynamic_filters,
+        assigned_client_id,
+    )
+    .await
+    {
+        Ok(l) => l,
+        Err(e) => {
+            error!(error=?e, "Remote link error");
+            return;
+        }
+    };
+
+    // The connection is admitted: only now does it decide the delayed will of the previous
+    // connection of this client id (a CONNECT that the router refuses takes nothing over)
     if let Some(sender) = will_handlers.lock().unwrap().remove(&client_id) {
         let awaiting_will = if clean_session {
             AwaitingWill::Fire
@@ -550,31 +570,6 @@ async fn remote<P: Protocol>(
         .lock()
         .unwrap()
         .insert(client_id.clone(), will_tx);
-
-    // Start the link
-    let mut link = match RemoteLink::new(
-        router_tx.clone(),
-        tenant_id.clone(),
-        network,
-        connect_packet,
-        dynamic_filters,
-        assigned_client_id,
-    )
-    .await
-    {
-        Ok(l) => l,
-        Err(e) => {
-            error!(error=?e, "Remote link error");
-            // the link never started: nobody is going to wait for a decision on its will.
-            // The entry is still ours as long as our sender is alive (a newer connection of
-            // this client id takes it out and puts its own in)
-            let mut will_handlers = will_handlers.lock().unwrap();
-            if will_rx.sender_count() > 0 {
-                will_handlers.remove(&client_id);
-            }
-            return;
-        }
-    };
 
     let connection_id = link.connection_id;
     let will_delay_interval = link.will_delay_interval;
